@@ -338,7 +338,13 @@ def run_impl(case):
     ins = [bus.addr, bus.r_stb, bus.w_stb, bus.w_data] + [s.i for s in srcs]
     outs = [bus.r_data, b["mon"].src.i] + [s.trg for s in srcs]
     stim = [r[:4] + r[4] for r in rows]
-    tr = S.simulate(b["dut"], ins, outs, stim)
+    from amaranth.hdl import Fragment
+    from amaranth.lib.wiring import ConnectionError as WiringConnectionError
+    try:
+        frag = Fragment.get(b["dut"], None)
+    except WiringConnectionError:
+        return [-6, 0]                      # wiring.connect(initiator interface, mon.bus) refused
+    tr = S.simulate(b["dut"], ins, outs, stim, frag=frag)
     obs = [[r[0], r[1], r[2:]] for r in tr]
     return [b["aw"], b["trigger"], b["inner"], b["top"], obs, rows, b["top_aw"]]
 
@@ -368,6 +374,8 @@ def analyse(case, obs):
         if obs[0] == -2 and valid(cfg):
             out.append(("C14", "constructor", f"EventMonitor refused {len(cfg['modes'])} events, data_width={cfg['dw']}, "
                         f"alignment={cfg['al']}"))
+        if obs[0] == -6:
+            out.append(("C14", "attach", "wiring.connect() from an initiator-side csr.Signature interface to mon.bus is refused"))
         return out, st
     aw, trig, inner, top, rows, stim, top_aw = obs
     n = len(cfg["modes"]); dw = cfg["dw"]; modes = cfg["modes"]
